@@ -10,6 +10,7 @@ package nebula
 // stubbed: its real handler is called with a recording ResponseWriter.
 
 import (
+	"testing/synctest"
 	"fmt"
 	"net"
 	"net/netip"
@@ -94,19 +95,54 @@ func runC44(rc *sk.RunCtx) {
 		}
 		truth[k][a] = true
 	}
-	for _, p := range L.spec.nets {
-		add(L.spec.id.certs[0].Name(), p.Addr())
-	}
 	seenHI := map[*HostInfo]bool{}
+	dnsOn := true
+	// the responder's records start afresh (the node's own name only) when the lighthouse process starts and when
+	// serve_dns is switched on by a reload: "a later re-enable will repopulate from fresh handshakes"
+	resetTruth := func() {
+		clear(truth)
+		for _, p := range L.spec.nets {
+			add(L.spec.id.certs[0].Name(), p.Addr())
+		}
+	}
+	resetTruth()
 	collect := func() {
+		if mw.nodes[0] != L {
+			// the lighthouse was restarted: a new process, a new responder
+			L = mw.nodes[0]
+			clear(seenHI)
+			resetTruth()
+		}
 		for _, h := range sortedHostInfos(L.f.hostMap) {
 			if seenHI[h] || h.ConnectionState == nil || h.ConnectionState.peerCert == nil {
 				continue
 			}
 			seenHI[h] = true
+			if !dnsOn {
+				continue // completed while the responder was switched off: not recorded
+			}
 			for _, a := range h.vpnAddrs {
 				add(h.ConnectionState.peerCert.Certificate.Name(), a)
 			}
+		}
+	}
+	toggleDNS := func() {
+		collect()
+		if !L.alive {
+			return
+		}
+		dnsOn = !dnsOn
+		deepMerge(L.spec.extra, map[string]any{"lighthouse": map[string]any{"serve_dns": dnsOn}})
+		if err := L.reload(L.spec.configYAML()); err != nil {
+			rc.HarnessError("reload: %v", err)
+			return
+		}
+		synctest.Wait() // the reload starts the listener goroutine, which returns at once (its context is not live)
+		rc.Count("op.reload_serve_dns", 1)
+		if dnsOn {
+			resetTruth()
+		} else {
+			clear(truth)
 		}
 	}
 	mw.afterEvent = func(string) { collect() }
@@ -118,6 +154,9 @@ func runC44(rc *sk.RunCtx) {
 	stats := map[string]int{}
 	query := func() {
 		collect()
+		if !dnsOn {
+			return // the responder is not listening
+		}
 		m := new(dns.Msg)
 		m.Id = uint16(tp.Choose(65536))
 		m.Opcode = dns.OpcodeQuery
@@ -268,6 +307,15 @@ func runC44(rc *sk.RunCtx) {
 	for k := 0; k < nq; k++ {
 		at := time.Duration(tp.Choose(int(horizon/time.Millisecond))) * time.Millisecond
 		mw.at(at, "dns-query", query)
+	}
+	if tp.Chance(1, 2) {
+		// serve_dns switched off and on again by reloads; peers re-handshake afterwards
+		for k, nk := 0, 1+tp.Choose(4); k < nk; k++ {
+			at := 2*time.Second + time.Duration(tp.Choose(int((horizon-2*time.Second)/time.Millisecond)))*time.Millisecond
+			mw.at(at, "dns-toggle", toggleDNS)
+			i := 1 + tp.Choose(nbase-1)
+			mw.at(at+time.Duration(100+tp.Choose(3000))*time.Millisecond, "rehandshake-after-toggle", func() { mw.opRehandshake(i, 0) })
+		}
 	}
 	mw.runUntil(horizon)
 	for k, v := range stats {
